@@ -47,9 +47,9 @@ fn main() {
     mark();
     // the result is folded into the exit status with a data-independent computation
     let acc: u8 = match set.as_str() {
-        "44" => fips204::ml_dsa_44::dudect_keygen_sign_with_rng(&mut rng, &msg).expect("sign").iter().fold(0u8, |a, b| a ^ b),
-        "65" => fips204::ml_dsa_65::dudect_keygen_sign_with_rng(&mut rng, &msg).expect("sign").iter().fold(0u8, |a, b| a ^ b),
-        _ => fips204::ml_dsa_87::dudect_keygen_sign_with_rng(&mut rng, &msg).expect("sign").iter().fold(0u8, |a, b| a ^ b),
+        "44" => fips204::ml_dsa_44::dudect_keygen_sign_with_rng(&mut rng, &msg).map(|s| s.iter().fold(0u8, |a, b| a ^ b)).unwrap_or(0),
+        "65" => fips204::ml_dsa_65::dudect_keygen_sign_with_rng(&mut rng, &msg).map(|s| s.iter().fold(0u8, |a, b| a ^ b)).unwrap_or(0),
+        _ => fips204::ml_dsa_87::dudect_keygen_sign_with_rng(&mut rng, &msg).map(|s| s.iter().fold(0u8, |a, b| a ^ b)).unwrap_or(0),
     };
     mark();
     std::process::exit((acc & 1) as i32 * 0);
